@@ -97,6 +97,12 @@ pub struct World {
     pub panicked: bool,
 }
 
+/// whether teosd's main() persists the bootstrap tip when no last known block is stored (read from
+/// main.rs by the translator and handed over by the check)
+pub fn bootstrap_persists_tip() -> bool {
+    std::env::var("VERIF_BOOTSTRAP_PERSISTS_TIP").map(|v| v == "1" || v == "true").unwrap_or(true)
+}
+
 pub fn key_of_uid(uid: u64) -> (SecretKey, PublicKey) {
     let mut b = [0x11u8; 32];
     b[..8].copy_from_slice(&(uid + 1).to_be_bytes());
@@ -146,6 +152,10 @@ impl World {
         // as teosd does on a fresh data directory: persist the tower key
         if dbm.lock().unwrap().load_tower_key().is_none() {
             dbm.lock().unwrap().store_tower_key(&tower_sk).unwrap();
+        }
+        // ... and (if main.rs does: VERIF_BOOTSTRAP_PERSISTS_TIP, from the translator) the bootstrap tip
+        if bootstrap_persists_tip() && dbm.lock().unwrap().load_last_known_block().is_none() {
+            dbm.lock().unwrap().store_last_known_block(&chain.last().unwrap().1.header.block_hash()).unwrap();
         }
         let (gatekeeper, watcher, responder, api, reachable) =
             Self::build(cfg, &dbm, &node, &chain, height, tower_sk, tower_pk);
@@ -245,6 +255,9 @@ impl World {
                     }
                 }
             };
+            if bootstrap_persists_tip() && dbm.lock().unwrap().load_last_known_block().is_none() {
+                dbm.lock().unwrap().store_last_known_block(&last_blocks.last().unwrap().1.header.block_hash()).unwrap();
+            }
             let built = Self::build(self.cfg, &dbm, &self.node, last_blocks, height, sk, pk);
             (dbm, built, pk)
         }));
